@@ -28,4 +28,4 @@ package common
 //@ assume func UnmarshalRound(b)
 //@   modifies nothing
 //@   ensures err != nil ==> result0 == nil
-//@   ensures err == nil ==> result0 != nil && fresh(result0) && (result0.References != nil ==> fresh(result0.References)) && RoundDecodes(result0, kvval(b))
+//@   ensures err == nil ==> result0 != nil && fresh(result0) && RoundDecodes(result0, kvval(b))
